@@ -4,7 +4,7 @@
 # usage: bin/seeded_regression.sh [name-regex]
 mkdir -p /scratch/seedreg
 cd /verif/seeded
-ls -d */ | tr -d / | grep -E "${1:-.}" | xargs -P 3 -I{} sh -c '
+ls -d */ | tr -d / | grep -v "^_" | grep -E "${1:-.}" | xargs -P 3 -I{} sh -c '
   N={}; WT=/tmp/sr_$N; EV=/scratch/seedreg/ev_$N
   CHK=$(python3 -c "import json;m=json.load(open(\"/verif/seeded/$N/meta.json\"));print(m.get(\"check\",m[\"property\"]))")
   git -C /repo worktree remove --force $WT 2>/dev/null; git -C /repo worktree add -q --detach $WT HEAD || exit 9
